@@ -54,10 +54,14 @@ def exit_after_cases(run):
             ea = '%d:%02d' % (T // 60, T % 60)
         else:
             ea = '@' + datetime.datetime.fromtimestamp(start_s + T).strftime('%Y-%m-%d %H:%M:%S')
+        # every third filter has frames to send, an outputs_timeout, and nobody listening: every send times out - it is still
+        # "processing frames" and exit_after ends it all the same
+        emit = i % 3 == 2
         script = dict(ctor='ok', init='ok', init_mq=True, setup='ok', loop=[[False, 'ok']] * len(steps), shutdown='ok',
-                      send_exit='ok', fini='ok', prop_exit=0, loop_exc=True, config=dict(exit_after=ea), steps=steps)
+                      send_exit='ok', fini='ok', prop_exit=0, loop_exc=True, config=dict(exit_after=ea, **({'outputs_timeout': 1} if emit else {})),
+                      steps=steps, emit=emit)
         obs = cl.run_script(script, with_lineage=False)
-        case = dict(exit_after=ea, steps=steps)
+        case = dict(exit_after=ea, steps=steps, emit=emit)
         run.seen(('ea', form, T, tuple(steps)))
         run.count('exit_after:%s' % form)
         if obs['result'] != 0:
@@ -67,6 +71,14 @@ def exit_after_cases(run):
         deadline_ns = (start_s + T) * 10 ** 9 if form == 'at' else obs['meta']['t_init'] + T * 10 ** 9
         nloops = sum(1 for r in obs['trace'] if r[0] == 'l')
         exp = next((j for j, t in enumerate(clock) if t >= deadline_ns), None)
+        if emit:
+            # the timed-out sends take a few ms of virtual time each: judged as the property puts it - within one loop iteration
+            # after T (the model comparison below is for the filters whose iterations take exactly the scripted time)
+            if exp is not None and nloops > exp + 1:
+                run.violation('exit_after:late form=%s T=%s sends-time-out' % (form, T),
+                              'exit_after=%r, every send timing out: still running after %d iterations, the deadline had passed at the end of iteration %d' % (ea, nloops, exp + 1), case)
+            run.count('exit_after:sends-time-out')
+            continue
         if exp is not None and nloops != exp + 1:
             run.violation('exit_after:late form=%s T=%s' % (form, T),
                           'exit_after=%r: ended after %d iterations, the deadline had passed at the end of iteration %d' % (ea, nloops, exp + 1), case)
